@@ -235,6 +235,41 @@ Theorem C16_countdown_correct : forall (q : quirks) (P : prog) (k : string) (lo 
 Proof. exact countdown_correct. Qed.
 Print Assumptions C16_countdown_correct.
 
+(* ---------------------------------------------------------------- 4b. declared parameter names *)
+(* Scoping.  Every activation - and every iteration of the tail-call loop, see C16_fn_first_arm_runs and
+   C16_fn_tail_call_loops: guards, bodies and the arguments of the tail call are evaluated with
+   syms = combine (parameter names) (the CURRENT arguments), and the next iteration with the NEW ones -
+   gives a declared parameter name the argument at its position, unless the pattern bound a variable
+   of the same name, which shadows it. *)
+Theorem C16_pattern_var_shadows_param : forall (q : quirks) (P : prog) (f d : nat) (syms e : env) (x : string) (v : value),
+  lookup x e = Some v -> eval q P (S f) d syms e (EVar x) = ROk v.
+Proof. exact pattern_var_shadows_param. Qed.
+Print Assumptions C16_pattern_var_shadows_param.
+
+Theorem C16_param_name_denotes_arg : forall (q : quirks) (P : prog) (f d : nat) (names : list string) (args : list value)
+    (e : env) (i : nat) (x : string) (v : value),
+  lookup x e = None -> NoDup names -> nth_error names i = Some x -> nth_error args i = Some v ->
+  eval q P (S f) d (combine names args) e (EVar x) = ROk v.
+Proof. exact param_name_denotes_arg. Qed.
+Print Assumptions C16_param_name_denotes_arg.
+
+(* ... in EVERY iteration: accumulator loops whose arms read `acc` (sumacc) resp. `n` and `acc` (sumname)
+   by NAME, the pattern positions being `*`, return acc + n(n+1)/2 for every n, acc of the kind, at ONE
+   activation of stack.  tri n = n(n+1)/2. *)
+Theorem C16_sumacc_correct : forall (q : quirks) (P : prog) (k : string) (lo hi : Z),
+  kind_range k = Some (lo, hi) -> (lo <= 0)%Z -> find_fn (pdefs P) "sumacc" = Some (sumacc_def k) ->
+  forall (n : nat) (acc : Z) (f d : nat) (syms e : env), n + 4 <= f -> 1 <= d -> (0 <= acc)%Z -> (acc + tri n <= hi)%Z ->
+  eval q P f d syms e (ECall "sumacc" [num k (Z.of_nat n); num k acc]) = ROk (VInt k (acc + tri n)).
+Proof. exact sumacc_correct. Qed.
+Print Assumptions C16_sumacc_correct.
+
+Theorem C16_sumname_correct : forall (q : quirks) (P : prog) (k : string) (lo hi : Z),
+  kind_range k = Some (lo, hi) -> (lo <= 0)%Z -> find_fn (pdefs P) "sumname" = Some (sumname_def k) ->
+  forall (n : nat) (acc : Z) (f d : nat) (syms e : env), n + 4 <= f -> 1 <= d -> (0 <= acc)%Z -> (acc + tri n <= hi)%Z ->
+  eval q P f d syms e (ECall "sumname" [num k (Z.of_nat n); num k acc]) = ROk (VInt k (acc + tri n)).
+Proof. exact sumname_correct. Qed.
+Print Assumptions C16_sumname_correct.
+
 (* ---------------------------------------------------------------- 5. the judge *)
 (* ok => the implementation's observation on this case IS the specified outcome (value or error) *)
 Theorem C16_judge_sound : forall (c : case) (o : fobs) (tag : string), judge_case c o = v_ok tag -> C16_spec c o.
@@ -342,6 +377,16 @@ Example C16_gen_countdown : prog_of "(c16 (enum) (defs (fn countdown ((n (int u6
   = Some {| penum := []; pdefs := [countdown_def "u64"; cdacc_def "u64"] |}.
 Proof. exact gen_countdown. Qed.
 Print Assumptions C16_gen_countdown.
+
+Example C16_gen_sumacc : prog_of "(c16 (enum) (defs (fn sumacc ((n (int u64)) (acc (int u64))) (int u64) (arm (t (l (i u64 0)) _) - (var acc)) (arm (t (v k) _) - (call sumacc (op sub (var k) (val (i u64 1))) (op add (var acc) (var k)))))) (globals) (main (call sumacc (val (i u64 10)) (val (i u64 0)))) (fuel 110))"
+  = Some {| penum := []; pdefs := [sumacc_def "u64"] |}.
+Proof. exact gen_sumacc. Qed.
+Print Assumptions C16_gen_sumacc.
+
+Example C16_gen_sumname : prog_of "(c16 (enum) (defs (fn sumname ((n (int u64)) (acc (int u64))) (int u64) (arm (t (l (i u64 0)) _) - (var acc)) (arm (t _ _) - (call sumname (op sub (var n) (val (i u64 1))) (op add (var acc) (var n)))))) (globals) (main (call sumname (val (i u64 10)) (val (i u64 0)))) (fuel 110))"
+  = Some {| penum := []; pdefs := [sumname_def "u64"] |}.
+Proof. exact gen_sumname. Qed.
+Print Assumptions C16_gen_sumname.
 
 (* the hypotheses of the recurrence theorems are satisfiable: u64, 20! fits, countdown(3000) *)
 Example C16_example_factorial_u64 :
